@@ -234,15 +234,15 @@ def run(ctx, eng):
         refill_paths = [p for p in cm.normal_paths(eng.I.run(fd)) if any(
             e.kind == 'catch' and 'StreamClosedError' in e.names
             for e in p.events)]
-    ok = False
+    # on every path, whatever the frame carries: an empty padded DATA frame
+    # still costs its padding
+    ok = bool(refill_paths)
     for p in refill_paths:
         pb = cm.calls_to(p, 'process_bytes')
-        if pb and pb[0].args and cm.attr_chain(pb[0].args[0]) == \
-                'frame.flow_controlled_length' and \
-                cm.attr_chain(pb[0].recv) == \
-                'self._inbound_flow_control_window_manager':
-            ok = True
-        elif pb:
+        if not (pb and pb[0].args and cm.attr_chain(pb[0].args[0]) ==
+                'frame.flow_controlled_length' and
+                cm.attr_chain(pb[0].recv) ==
+                'self._inbound_flow_control_window_manager'):
             ok = False
             break
     ctx.ob('FLOW.refill-amount', fi.qual,
@@ -424,7 +424,7 @@ def check_lookup_contracts(ctx, eng):
                     continue
                 r = cm.explicit_raise(p)
                 if p.exc.get('reraise') or (
-                        r is not None and r.get('frame') == fi.qual and
+                        r is not None and r.frame == fi.qual and
                         p.index(r) > p.index(got[0])):
                     worse.append(sorted(p.exc['names']))
             ctx.ob('FSM.layer3', fi.qual, 'tolerance is unconditional',
